@@ -376,7 +376,9 @@ class C13(Check):
                 if p == -1:
                     self._report(acc, case, plan, r, h, op, mode, got, want, hi, reported)
                     break
-                if len(h) == 1: alone_bad.add(repr(op))
+                if len(h) == 1:
+                    alone_bad.add(repr(op))
+                    if op[0] == 'other': continue      # the neighbouring row's own content is reported by that row's case
                 if len(h) > 1 and repr(op) in alone_bad: continue          # already reported by the one-access history
                 if len(h) > 1:
                     # the access is right on a fresh row but wrong after the earlier accesses of this history
